@@ -18,7 +18,7 @@ def corpus(thorough, extra_dims=()):
 
     quick: the four triangle baselines with the full value lists, eight further (cell, type) baselines with the core value lists;
     thorough: every (cell, type) baseline with the full value lists."""
-    dims = ["geom", "arity", "elem", "op", "factor", "wrap", "quad", "restr"] + list(extra_dims)
+    dims = ["geom", "arity", "elem", "op", "factor", "wrap", "quad", "restr", "mesh2"] + [d for d in extra_dims if d != "mesh2"]
     if thorough:
         pairs = [(c, it) for c in space.CELLS for it in ("dx", "ds", "dS", "dP") if not (c == "prism" and it == "dS")]
         nodes, edges, by = space.explore([space.baseline(c, it) for c, it in pairs], 1, dims=dims)
